@@ -238,3 +238,20 @@ Definition proto_judge_sig (c : pcase) : nat :=
   end.
 
 Definition proto_case_info (c : pcase) : nat := proto_case_info_with (proto_judge_sig c) c.
+
+(* ------------------------------------------------------------------ the byte scanner alone *)
+(* one run of protoFileHasGoPackage on a file with the given content (scan stream of the check:
+   exhaustive over short fragment sequences, fragments inserted into the gaps of a declaration,
+   random longer ones) — the tie of ProtoLex.scan_go_package to declaresGoPackage *)
+Record scase : Type := {
+  sc_content : string;
+  sc_got : bool;        (* what the function returned *)
+  sc_err : bool         (* it returned an error *)
+}.
+
+Definition scan_judge (c : scase) : nat :=
+  verdict (negb (sc_err c) && Bool.eqb (sc_got c) (declares_go_package (sc_content c)))
+          (negb (sc_err c) && Bool.eqb (sc_got c) (scan_go_package (sc_content c))).
+
+(* coverage: the content declares the option *)
+Definition scan_declares (c : scase) : bool := declares_go_package (sc_content c).
